@@ -210,3 +210,139 @@ Proof.
     intros Hm. destruct (aget (mgrs x) k) as [m|] eqn:Em; [|congruence].
     apply (Hin m); [|exact Em]. intros m0. unfold holders, cur_list. cbn. auto.
 Qed.
+
+(* ---------------------------------------------------------------- wait queue *)
+Lemma J2x_wq_compact k items : forall x x' kept, wq_compact x items = (x', kept) -> KH k x items -> J2x (Some k) x ->
+  J2x (Some k) x' /\ keyst x x' /\ (forall y, In y kept -> In y items) /\ mdom x x'.
+Proof.
+  induction items as [|r rest IH]; intros x x' kept H Hk Hj; simpl in H.
+  - inv_tuple H. split; [auto|]. split; [apply keyst_refl|]. split; [tauto|apply mdom_refl].
+  - destruct (KH_cons _ _ _ _ Hk) as [Hr Hrest].
+    destruct (dead_waiter (getl x r)).
+    + assert (S1 : keyst x (unref x r)) by apply keyst_unref.
+      destruct (IH _ _ _ H (KH_keyst _ _ _ _ S1 Hrest) (J2x_unref _ _ _ Hr Hj)) as (A & B & C & M).
+      split; [auto|]. split; [eapply keyst_trans; eauto|]. split; [intros y Hy; simpl; auto|].
+      eapply mdom_trans; [apply mdom_unref|exact M].
+    + destruct (wq_compact x rest) as [x1 k1] eqn:E. inv_tuple H.
+      destruct (IH _ _ _ E Hrest Hj) as (A & B & C & M). split; [auto|]. split; [auto|]. split; [|exact M].
+      intros y [->|Hy]; simpl; auto.
+Qed.
+
+Lemma in_prio_insert s items r p y : In y (prio_insert s items r p) <-> In y items \/ y = r.
+Proof.
+  rewrite !occ_In, occ_prio_insert. simpl. destruct (r =? y) eqn:E.
+  - apply N.eqb_eq in E. subst. split; [auto|lia].
+  - apply N.eqb_neq in E. split; [intros H; left; lia|intros [H|H]; [lia|congruence]].
+Qed.
+
+Lemma wq_items_fast q y : In y (wq_fast q) -> In y (wq_items q).
+Proof. intros H. unfold wq_items. apply in_or_app. auto. Qed.
+
+Lemma J2x_wq_push k x q r x' q' : wq_push x q r = (x', q') -> KH k x (wq_items q) -> J2x (Some k) x ->
+  J2x (Some k) x' /\ keyst x x' /\ (forall y, In y (wq_items q') -> In y (wq_items q) \/ y = r) /\ In r (wq_items q')
+  /\ mdom x x'.
+Proof.
+  intros H Hk Hj.
+  assert (Triv : forall q1, (forall y, In y (wq_items q1) -> In y (wq_items q) \/ y = r) -> In r (wq_items q1) ->
+            J2x (Some k) x /\ keyst x x /\ (forall y, In y (wq_items q1) -> In y (wq_items q) \/ y = r) /\ In r (wq_items q1)
+            /\ mdom x x).
+  { intros q1 A B. split; [auto|]. split; [apply keyst_refl|]. split; [auto|]. split; [auto|apply mdom_refl]. }
+  unfold wq_push in H.
+  destruct (wq_mode q) eqn:Em.
+  - destruct (wq_cap q =? 0).
+    { inv_tuple H. apply Triv; unfold wq_items; cbn.
+      - intros y Hy. simpl in Hy. destruct Hy as [->|Hy]; auto. left. apply in_or_app. auto.
+      - simpl. auto. }
+    destruct (wq_len q <? wq_cap q).
+    { inv_tuple H. apply Triv; unfold wq_items; cbn.
+      - intros y Hy. apply in_app_or in Hy. destruct Hy as [Hy|Hy]; [|left; apply in_or_app; auto].
+        apply in_app_or in Hy. destruct Hy as [Hy|[->|[]]]; auto. left. apply in_or_app. auto.
+      - apply in_or_app. left. apply in_or_app. right. simpl. auto. }
+    destruct (wq_fast q) as [|a t] eqn:Ef.
+    { inv_tuple H. apply Triv; unfold wq_items; cbn.
+      - intros y Hy. simpl in Hy. destruct Hy as [->|Hy]; auto. left. rewrite Ef. simpl. auto.
+      - simpl. auto. }
+    destruct (wq_compact x (a :: t)) as [x1 kept] eqn:Ec.
+    assert (Hk1 : KH k x (a :: t)).
+    { eapply KH_incl; [|exact Hk]. intros y Hy. apply wq_items_fast. rewrite Ef. exact Hy. }
+    destruct (J2x_wq_compact k _ _ _ _ Ec Hk1 Hj) as (A & B & C & M).
+    assert (Fin : forall q1, (forall y, In y (wq_items q1) -> In y (a :: t) \/ In y kept \/ In y (wq_ring q) \/ y = r) -> In r (wq_items q1) ->
+              J2x (Some k) x1 /\ keyst x x1 /\ (forall y, In y (wq_items q1) -> In y (wq_items q) \/ y = r) /\ In r (wq_items q1)
+              /\ mdom x x1).
+    { intros q1 F1 F2. split; [auto|]. split; [auto|]. split; [|split; [auto|exact M]].
+      intros y Hy. destruct (F1 y Hy) as [Hy1|[Hy1|[Hy1|Hy1]]]; auto; left.
+      - apply wq_items_fast. rewrite Ef. auto.
+      - apply wq_items_fast. rewrite Ef. auto.
+      - unfold wq_items. apply in_or_app. auto. }
+    repeat (split_hyp H); inv_tuple H.
+    all: apply Fin; unfold wq_items; cbn; rewrite ?Ef.
+    all: try (intros y Hy; apply in_app_or in Hy; destruct Hy as [Hy|Hy]; auto;
+              try (apply in_app_or in Hy; destruct Hy as [Hy|[->|[]]]; auto); try (destruct Hy as [->|[]]; auto)).
+    all: try (apply in_or_app; left; apply in_or_app; right; simpl; auto; fail).
+    all: apply in_or_app; right; simpl; auto.
+  - inv_tuple H. apply Triv; unfold wq_items; cbn.
+    + intros y Hy. apply in_app_or in Hy. destruct Hy as [Hy|Hy]; [left; apply in_or_app; auto|].
+      apply in_app_or in Hy. destruct Hy as [Hy|[->|[]]]; auto. left. apply in_or_app. auto.
+    + apply in_or_app. right. apply in_or_app. right. simpl. auto.
+  - inv_tuple H. apply Triv; unfold wq_items; cbn.
+    + intros y Hy. apply in_app_or in Hy. destruct Hy as [Hy|Hy]; [left; apply in_or_app; auto|].
+      apply in_prio_insert in Hy. destruct Hy as [Hy| ->]; auto. left. apply in_or_app. auto.
+    + apply in_or_app. right. apply in_prio_insert. auto.
+Qed.
+
+Lemma in_wq_repush s q y : In y (wq_items (wq_repush s q)) <-> In y (wq_items q).
+Proof. rewrite !occ_In, wq_repush_items. tauto. Qed.
+
+Lemma aw_choose_items x k r y : In y (wq_items (aw_choose x k r)) -> In y (m_wq (getm x k)).
+Proof.
+  unfold aw_choose, m_wq. cbv zeta. destruct (m_wait (getm x k)) as [q|]; [|intros []].
+  destruct (m_waited (getm x k) && _); auto. destruct (wq_head q); auto.
+  destruct (_ =? _); auto. apply in_wq_repush.
+Qed.
+
+(* LockManager.AddWaitLock *)
+Lemma J2x_add_wait_lock k x r : KH k x (m_wq (getm x k)) -> J2x (Some k) x ->
+  J2x (Some k) (add_wait_lock x k r) /\ keyst x (add_wait_lock x k r)
+  /\ (aget (mgrs x) k <> None -> In r (m_wq (getm (add_wait_lock x k r) k))).
+Proof.
+  intros Hk Hj. rewrite add_wait_lock_eq.
+  destruct (wq_push x (aw_choose x k r) r) as [x1 q1] eqn:Ep.
+  assert (Hk1 : KH k x (wq_items (aw_choose x k r))).
+  { eapply KH_incl; [|exact Hk]. apply aw_choose_items. }
+  destruct (J2x_wq_push k _ _ _ _ _ Ep Hk1 Hj) as (A & B & C & D & M).
+  cbv zeta.
+  set (x2 := updl x1 r (fun l => l <| l_refc := add8 (l_refc l) 1 |>)).
+  assert (S2 : keyst x1 x2) by (apply keyst_updl; intros l; reflexivity).
+  split; [apply J2x_updm_K; apply J2x_updl; auto|].
+  split; [apply (keyst_trans _ x2); [apply (keyst_trans _ x1); auto|apply keyst_updm]|].
+  intros Hm.
+  destruct (aget (mgrs x2) k) as [m2|] eqn:E2.
+  - rewrite (updm_some _ _ _ _ E2), getm_setm_same. unfold m_wq. cbn. exact D.
+  - exfalso. unfold x2 in E2. rewrite mgrs_updl in E2. apply (M k) in E2. congruence.
+Qed.
+
+Lemma J2x_get_wait_loop k fuel : forall x q x' q' res, get_wait_loop fuel x q = (x', q', res) -> KH k x (wq_items q) -> J2x (Some k) x ->
+  J2x (Some k) x' /\ keyst x x'.
+Proof.
+  induction fuel as [|f IH]; intros x q x' q' res H Hk Hj; simpl in H.
+  - inv_tuple H. split; [auto|apply keyst_refl].
+  - destruct (wq_head q) as [r|] eqn:Eh.
+    + destruct (dead_waiter (getl x r)).
+      * rewrite (wq_pop_items q r Eh) in Hk. destruct (KH_cons _ _ _ _ Hk) as [Hr Hrest].
+        assert (S1 : keyst x (unref x r)) by apply keyst_unref.
+        destruct (IH _ _ _ _ _ H (KH_keyst _ _ _ _ S1 Hrest) (J2x_unref _ _ _ Hr Hj)) as (A & B).
+        split; [auto|eapply keyst_trans; eauto].
+      * inv_tuple H. split; [auto|apply keyst_refl].
+    + inv_tuple H. split; [auto|apply keyst_refl].
+Qed.
+
+(* LockManager.GetWaitLock *)
+Lemma J2x_get_wait_lock k x x' res : get_wait_lock x k = (x', res) -> KH k x (m_wq (getm x k)) -> J2x (Some k) x ->
+  J2x (Some k) x' /\ keyst x x'.
+Proof.
+  intros H Hk Hj. unfold get_wait_lock in H. unfold m_wq in Hk.
+  destruct (m_wait (getm x k)) as [q|]; [|inv_tuple H; split; [auto|apply keyst_refl]].
+  destruct (get_wait_loop _ x q) as [[x1 q1] r1] eqn:E. inv_tuple H.
+  destruct (J2x_get_wait_loop k _ _ _ _ _ _ E Hk Hj) as (A & B).
+  split; [apply J2x_updm_K; auto|eapply keyst_trans; [exact B|apply keyst_updm]].
+Qed.
